@@ -82,4 +82,59 @@ impl<T: Eq + PartialOrd + Send + Sync, A: Clone> Graph<T, A> {
             &&& forall|k: int| 0 <= k < self.pair_list(u, v).len() ==> self.edge_fits(*#[trigger] self.pair_list(u, v)[k], u, v)
         }
     }
+
+    // ---- add_edge outcome ladder (C01), phrased over the pre-state ----
+    pub open spec fn knows(&self, name: T) -> bool {
+        self.nodes_map@.contains_key(name)
+    }
+
+    // an edge between the endpoints of `e` is already stored (either orientation when undirected)
+    pub open spec fn existed(&self, e: Edge<T, A>) -> bool {
+        &&& self.knows(e.u) && self.knows(e.v)
+        &&& self.has_pair(self.canon(self.nodes_map@[e.u], self.nodes_map@[e.v]).0, self.canon(self.nodes_map@[e.u], self.nodes_map@[e.v]).1)
+    }
+
+    pub open spec fn self_loop_refused(&self, e: Edge<T, A>) -> bool {
+        !self.specs.self_loops && e.u == e.v
+    }
+
+    pub open spec fn missing_refused(&self, e: Edge<T, A>) -> bool {
+        self.specs.missing_node_strategy == MissingNodeStrategy::Error && (!self.knows(e.u) || !self.knows(e.v))
+    }
+
+    pub open spec fn duplicate_refused(&self, e: Edge<T, A>) -> bool {
+        self.existed(e) && !self.specs.multi_edges && self.specs.edge_dedupe_strategy == EdgeDedupeStrategy::Error
+    }
+
+    pub open spec fn duplicate_ignored(&self, e: Edge<T, A>) -> bool {
+        self.existed(e) && !self.specs.multi_edges && self.specs.edge_dedupe_strategy == EdgeDedupeStrategy::KeepFirst
+    }
+}
+
+// wf_estore only reads specs, the position-keyed store, n and the names at positions < n
+pub proof fn lemma_estore_frame<T: Eq + PartialOrd + Send + Sync, A: Clone>(g0: Graph<T, A>, g1: Graph<T, A>)
+    requires
+        g0.wf_estore(),
+        g1.edges_map@ == g0.edges_map@,
+        g1.specs == g0.specs,
+        g1.n() >= g0.n(),
+        forall|i: usize| i < g0.n() ==> #[trigger] g1.name_of(i) == g0.name_of(i),
+    ensures
+        g1.wf_estore(),
+{
+    assert forall|u: usize, v: usize| #[trigger] g1.has_pair(u, v) implies ({
+        &&& u < g1.n() && v < g1.n()
+        &&& g1.pair_list(u, v).len() > 0
+        &&& (!g1.specs.multi_edges ==> g1.pair_list(u, v).len() == 1)
+        &&& (!g1.specs.directed ==> u <= v)
+        &&& forall|k: int| 0 <= k < g1.pair_list(u, v).len() ==> g1.edge_fits(*#[trigger] g1.pair_list(u, v)[k], u, v)
+    }) by {
+        assert(g0.has_pair(u, v));
+        assert(g1.pair_list(u, v) == g0.pair_list(u, v));
+        assert(g1.name_of(u) == g0.name_of(u));
+        assert(g1.name_of(v) == g0.name_of(v));
+        assert forall|k: int| 0 <= k < g1.pair_list(u, v).len() implies g1.edge_fits(*#[trigger] g1.pair_list(u, v)[k], u, v) by {
+            assert(g0.edge_fits(*g0.pair_list(u, v)[k], u, v));
+        }
+    }
 }
